@@ -100,6 +100,13 @@ EXEMPT_FUNCS = {
 
 def _mode_of(e: Event, pidx: int, midx: int) -> Optional[str]:
     m = arg_of(e, "mode", midx)
+    if m is not None and m.op == "param" and e.func is not None:
+        # the enclosing helper's own `mode` parameter: its default (the
+        # documented call form)
+        import ast as _ast
+        d = e.func.defaults().get(m.args[0])
+        if isinstance(d, _ast.Constant) and isinstance(d.value, str):
+            m = const(d.value)
     if m is None:
         return "r"
     if tm.is_const(m) and isinstance(tm.const_val(m), str):
